@@ -198,7 +198,10 @@ func (b *listParser) Continue(node ast.Node, reader text.Reader, pc Context) Sta
 	lastIsEmpty := node.LastChild().ChildCount() == 0
 	indent, _ := util.IndentWidth(line, reader.LineOffset())
 
-	if indent < offset || lastIsEmpty {
+	// an empty item that no blank line has ended yet still takes the lines that
+	// are indented to its content column, whatever they start with
+	emptyEnded := lastIsEmpty && pc.Get(emptyListItemWithBlankLines) == node
+	if indent < offset || emptyEnded {
 		if indent < 4 {
 			match, typ := matchesListItem(line, false) // may have a leading spaces more than 3
 			if typ != notList && match[1]-offset < 4 {
